@@ -40,7 +40,9 @@ def run(ctx):
     # socket-level tier: a non-IPv4 target makes the real binary exit non-zero without a frame or a connection; exclusions on the wire
     n3, rej = wt.run_wire(ctx, select=lambda s: s["expect"]["kind"] == "refuse" or "exclude" in s["name"], label="c02w", focus="refuse")
     wt.report(ctx, "C02", rej)
-    n4, rej = wt.run_wire(ctx, select=lambda s: "exclude" in s["name"], label="c02x", focus="coverage")
+    # ... and the peer address of every connection of the HTTP application scans, with a proxy named in the environment and with servers
+    # that answer with a redirect to a host outside the target set
+    n4, rej = wt.run_wire(ctx, select=lambda s: "exclude" in s["name"] or s["expect"]["kind"] in ("app", "apphttp"), label="c02x", focus="coverage")
     wt.report(ctx, "C02", rej)
     runs = vf.read_ndjson(trace)
     for r0 in runs[:2]:
